@@ -85,25 +85,10 @@ pub fn label_text(e: &Edge) -> String {
 /// the state alone. With `avoid_known` they are executed in the edge cover only (so that the finding
 /// is re-confirmed) and left out of the long walks, which would otherwise all end there.
 pub fn known_trigger(kind: &str, flavour: &str, cap: usize, ov: &[i64], e: &Edge) -> Option<&'static str> {
-    match kind {
-        "slotmap" => {
-            let _ = (cap, ov, e);
-            None
-        }
-        "string" => {
-            let len = ov[1];
-            if (flavour == "inline" || flavour == "semantic") && len == cap as i64 {
-                if (e.a == "strip_prefix" || e.a == "strip_suffix") && e.s.is_empty() {
-                    return Some("string:static-full-zero-range");
-                }
-                if e.a == "remove_range" && e.i[1] == 0 && e.i[0] <= len {
-                    return Some("string:static-full-zero-range");
-                }
-            }
-            None
-        }
-        _ => None,
-    }
+    // no deterministic trigger of an unrepaired defect is known at present (the full StaticString x
+    // zero-length range panic was repaired by 4fe07aa); the hook stays for future findings
+    let _ = (kind, flavour, cap, ov, e);
+    None
 }
 
 impl<'a> Walker<'a> {
